@@ -1,10 +1,10 @@
-"""Items the translator (tools/translate.py) extracts from /repo on every run.
+"""C19 items the translator (tools/translate.py) extracts from /repo on every run.
 
 CONSTANTS[group] = [(lean_name, file relative to /repo, regex with ONE group, kind)]
 kind: "int" | "intlist" | "f64ratio"
 """
 CONSTANTS = {
-    "Buffer": [
+    "C19": [
         # the 56-bit mask used by `set_upto_64bits` when only read shifting is necessary
         ("SET_BITS_56_MASK", "arrow-buffer/src/util/bit_mask.rs", r"\(chunk >> read_shift\) & (0x[0-9A-Fa-f_]+);", "int"),
         ("SET_BITS_56_LEN", "arrow-buffer/src/util/bit_mask.rs", r"let len = (64 - 8); // 56 bits", "int"),
